@@ -111,9 +111,10 @@ impl Fetcher {
 
     /// Mark a fetch as failed for the [`NodeId`], using the provided `reason`.
     ///
-    /// Nothing is recorded for the local node.
+    /// Nothing is recorded for the local node, nor for a node that already has
+    /// a result.
     pub fn fetch_failed(&mut self, node: NodeId, reason: impl ToString) {
-        if node == self.local_node {
+        if !self.include_node(&node) {
             return;
         }
         let reason = reason.to_string();
@@ -133,8 +134,9 @@ impl Fetcher {
         node: NodeId,
         result: FetchResult,
     ) -> ControlFlow<Success, Progress> {
-        // N.b. the local node is never counted towards the target.
-        if node != self.local_node {
+        // N.b. the local node is never counted towards the target, and a node
+        // is counted at most once.
+        if self.include_node(&node) {
             self.results.push(node, result);
         }
         self.finished()
